@@ -7,7 +7,7 @@ import os
 import sys
 import traceback
 
-from mc.common import Ctx, InternalError
+from mc.common import Ctx, InternalError, bind_fandango
 
 LEVELS = {}  # property -> evidence level; filled from the check modules
 
@@ -20,6 +20,7 @@ def main() -> int:
     args = ap.parse_args()
     seed = int(os.environ.get("VERIF_SEED", "0") or 0)
     pid = args.pid.upper()
+    bind_fandango()  # every check runs against /repo/src, never the site-packages copy
     mod = importlib.import_module(f"mc.checks.{pid.lower()}")
     if args.replay:
         with open(args.replay) as fh:
